@@ -15,6 +15,7 @@ CONSTANTS
  MaxAttrs = 1
  MaxTok = 9
  MaxBadTail = 1
+ GuardRoot = TRUE
 ACTION_CONSTRAINT Emit
-INVARIANTS TypeOK GenRecAgree PrefixNotDoc BadRejected EncodeRoundTrip
+INVARIANTS TypeOK GenRecAgree PrefixNotDoc BadRejected EncodeRoundTrip SMTotal SMRefines SMRoundTrip
 CHECK_DEADLOCK FALSE
